@@ -367,7 +367,7 @@ var surrogateDefects = []string{`\ud800`, `\udc00`, `\udc00\ud800`, `\ud800A`, `
 var escapeDefects = []string{`\q`, `\u12G4`, `\x41`, `\U0041`, `\ `, `\u+123`, `\'`, `\a`, `\0`}
 
 func TestMalformedInputs(t *testing.T) {
-	ev.Rule(chkNeg, "rapid: a valid re-spelled serialization with exactly one injected defect: duplicate member name (identical or via a different escape spelling), truncation at a drawn position, invalid escape, lone / reversed / unpaired surrogate escape, raw control character inside a string, trailing content; the reference parser classifies the result and every input in one of the statement's reject classes must be rejected (an injection that happens to produce well-formed JSON is judged as such); every case is non-trivial when it lands in a reject class")
+	ev.Rule(chkNeg, "rapid: a valid re-spelled serialization with exactly one injected defect: duplicate member name (identical or via a different escape spelling), truncation at a drawn position, invalid escape, lone / reversed / unpaired surrogate escape, raw control character inside a string, trailing content (incl. characters that only Unicode counts as white space); the reference parser classifies the result and every input in one of the statement's reject classes must be rejected (an injection that happens to produce well-formed JSON is judged as such); every case is non-trivial when it lands in a reject class")
 	ev.Rapid(t, chkNeg, 4000, 40000, func(t *rapid.T) {
 		v := gen.JSONTop(t, rapid.IntRange(1, 4).Draw(t, "depth"))
 		ch := gen.RapidChooser{T: t, Label: "spell"}
@@ -389,7 +389,9 @@ func TestMalformedInputs(t *testing.T) {
 		case "truncate":
 			in = base[:rapid.IntRange(0, len(base)-1).Draw(t, "cut")]
 		case "trailing":
-			in = append(append([]byte{}, bytes.TrimRight(base, " \t\r\n")...), []byte(rapid.SampledFrom([]string{"x", "{}", ",", "]", "1", "}", "null", " []", "\n\"a\"", "\u0000"}).Draw(t, "tail"))...)
+			in = append(append([]byte{}, bytes.TrimRight(base, " \t\r\n")...), []byte(rapid.SampledFrom([]string{"x", "{}", ",", "]", "1", "}", "null", " []", "\n\"a\"", "\u0000",
+				// characters Unicode counts as space but JSON does not
+				"\f", "\v", "\u0085", "\u00a0", "\u1680", "\u2000", "\u2009", "\u2028", "\u2029", "\u202f", "\u205f", "\u3000", "\ufeff", "\n\u2028", " \f "}).Draw(t, "tail"))...)
 		default:
 			if len(strPos) == 0 {
 				base = []byte(`{"k":"v"}`)
